@@ -6,7 +6,9 @@
 # always check /repo itself.
 P="$1"; N="$2"; shift 2
 S=/tmp/pt_$N; rm -rf "$S"; mkdir -p "$S"
-git -C /repo worktree add -q --detach "$S/repo" HEAD || exit 9
+# (several of these run side by side: `git worktree add` can collide on the shared .git/worktrees bookkeeping - retry)
+ok=0; for try in 1 2 3 4 5 6; do if git -C /repo worktree add -q --detach "$S/repo" HEAD 2>/dev/null; then ok=1; break; fi; rm -rf "$S/repo"; git -C /repo worktree prune; sleep "0.$((RANDOM % 9 + 1))"; done
+[ $ok -eq 1 ] || { echo "$N WORKTREE-FAILED"; exit 9; }
 if ! git -C "$S/repo" apply "$P"; then echo "$N PATCH-DOES-NOT-APPLY"; git -C /repo worktree remove --force "$S/repo"; rm -rf "$S"; exit 8; fi
 mkdir "$S/verif"
 rsync -a --exclude .git --exclude .venv --exclude replays --exclude seeded /verif/ "$S/verif/"
